@@ -312,6 +312,17 @@ fn explore(ctx: &mut Ctx) {
         }
     }
     ctx.exhaustive_part("one-byte partners: strings of <= 3-4 chars over {c, one partner per byte position of c's encoding, 'a'} for c in {é, 个, 😀} x every member and every 2-char string over the set as pattern (char, str and byte kinds)");
+    // special chars: as text and as pattern (whole char, str and byte kinds), next to ASCII white space
+    for s in gen::special_char_strings() {
+        let hb = s.as_bytes();
+        for c in s.chars() {
+            let mut buf = [0u8; 4];
+            eval(ctx, hb, c.encode_utf8(&mut buf).as_bytes());
+        }
+        eval(ctx, hb, b" ");
+        eval(ctx, hb, b"a");
+    }
+    ctx.exhaustive_part("16 special chars (BOM, U+FFFD, Unicode white space / separators, zero-width ...) in 6 contexts x {each of its chars, ' ', 'a'} as pattern");
     // lead-byte sweep: the char itself (char and str kinds), its successor, its first byte and its tail bytes as patterns
     for s in gen::lead_byte_strings() {
         let hb = s.as_bytes();
